@@ -1013,6 +1013,20 @@ theorem rpm_plan_to_bytes_and_back (hex256 : Bytes → Bytes) (fs : Bytes → By
         unfold RpmFiles.payload at ih ⊢
         cases hg : RpmFiles.isGhost p.1 <;> simp [hg, ih]
 
+set_option maxRecDepth 100000 in
+/-- a whole rpm file – lead, empty signature header, a main header holding just the sixteen file entries, identity
+    "compression", cpio payload – written by the model and taken apart again by the readers: rows and payload names
+    (a test on one instance, kernel-evaluated) -/
+example :
+    let ps : List (RpmFiles.RFile × Bytes) :=
+      [ (RpmFiles.ofBody (fun _ => b!"00") { name := b!"/etc/a.conf", mode := 0o644, flags := 1 } (b!"k=v"), b!"k=v"),
+        (RpmFiles.ofBody (fun _ => b!"00") { name := b!"/etc/ln", mode := 0o120777 } (b!"a.conf"), b!"a.conf"),
+        (RpmFiles.ofBody (fun _ => b!"00") { name := b!"/var/g.log", mode := 0o644, flags := 64 } [], []) ]
+    (Pkg.readRpm some (Pkg.rpmFile (b!"a-1") id [] (RpmFiles.fileEntries (ps.map (·.1))) (RpmFiles.payload ps))).bind
+        (fun r => (RpmFiles.readFiles r.hdr).map (fun rows => (rows.map (fun w => (w.name, w.size, w.linkto)), r.payload.map (·.name))))
+      = some ([(b!"/etc/a.conf", 3, []), (b!"/etc/ln", 6, b!"a.conf"), (b!"/var/g.log", 0, [])], [b!"/etc/a.conf", b!"/etc/ln"]) := by
+  decide +kernel
+
 /-- a two-file list with a shared directory, a ghost and a symbolic link, end to end at the level of names and rows
     (kernel-evaluated) -/
 example :
